@@ -67,6 +67,25 @@ P = {
    "Trusted: refjq's transcription of DESIGN.md section 3; Go's regexp for RE2; exotic numeric strings, non-finite results and |x| >= 2^53 for % are unspecified and discarded (counted).", "5/C05, 3"),
 }
 
+# additions of the sixth round of seeded changes (appended to the coverage text)
+ADD = {
+ "C01": "Flat texts up to 64 KiB (thousands of blank lines, comment lines, statements, rules, elements, one long string or comment) go through the binary with their expected output.",
+ "C02": "A pattern may itself run next (inside a function it calls).",
+ "C03": "The reader also delivers its last bytes together with io.EOF (whole stream, and at every truncation point).",
+ "C04": "A sample of rejected roots (cyclic, inexpressible, non-finite) goes through the binary with -o FILE (absent, existing, the input file itself): non-zero exit, a diagnostic, and the file afterwards absent or a well-formed document.",
+ "C05": "Sub-check operator-reentered: a recursive function whose recursive call is the right / left / both operands of the operator. `is` with 11 words that name no type x every operand: false or refused (direct oracle).",
+ "C07": "An ENDFILE rule in every program and, in a third of the cases, further input values whose root is an object, a number or a string.",
+ "C08": "Match cases with several alternatives of which the earlier ones bind names and then fail.",
+ "C09": "A match case (expression or block body) that binds the name of a variable, followed by assignments to that variable.",
+ "C10": "The n-th execution of a program reads the same input bytes through a different reader (whole, with EOF attached, one byte per read, half reads); one program of a session may run in the library's fuzzing mode; a deep-recursion family (40-1000 frames, to 4090 thorough); programs without input files are compared with a fresh process too.",
+ "C11": "Kits storing to a method-named member of a number, string or array (=, ++, +=); splice recipe ends-mid-construct (the text stops on its last byte inside a construct).",
+ "C12": "Lines longer than 120 bytes (very wide gaps, a 200-byte comment); kits with the fault in the first or middle one of three constructs of a kind; an unknown $-variable in each for-in variable position.",
+ "C13": "A quoted literal and a numeric literal with the same spelling in one program, used type-sensitively in either order.",
+ "C15": "Arrays re-made from one all-literal array literal that is evaluated again and again.",
+ "C16": "pluck: a store into one member of a multi-key result leaves the other members (absent ones included) as they were.",
+ "C20": "Recursion shapes repeated (eight times in one run) and repeated-per-value (once for each of 40 input values).",
+}
+
 PENDING_REASON = "(unused) check not built yet in this round (work in progress; the design in DESIGN.md section 5 applies)"
 
 def main():
@@ -75,6 +94,8 @@ def main():
     for pid in ids:
         if pid in P:
             cat, tech, text, note, ref = P[pid]
+            if pid in ADD:
+                text = text + " " + ADD[pid]
             checks.append({
                 "property_id": pid,
                 "quick_cmd": "./check %s --tier quick" % pid,
